@@ -41,7 +41,9 @@ META = {
     'functions_encoded': ['numdifftools.multicomplex.Bicomplex.__init__/__add__/__radd__/__sub__/__rsub__/__mul__/__rmul__/__neg__/'
                           'conjugate/dot/_pow_singular/exp/sin/cos/sinh/cosh/expm1/log1p/log/mod_c/arg_c/arg_c1p/_arg_c/_coerce'],
     'bounds': 'scalar (0-d) operands and shape (2,) operands for the ring operations; integer exponents -3..5',
-    'outside_claim': ['log (branch of arctan / sign logic), sqrt, ** with non-integer exponent, / (implemented through log), '
+    'outside_claim': ['floating-point precision of integer powers / division at negative points: exercised only by 12 concrete '
+                      'witness runs (job concrete-witness-negative-base), which are NOT solver evidence',
+                      'log in general (branch of arctan / sign logic; only the exp(log) round trip on the slice z2=0 is proven), sqrt, ** with non-integer exponent, / (implemented through log), '
                       'tan cot sec csc tanh coth sech csch, all inverse functions, log2 log10 exp2, logaddexp',
                       'floating-point accuracy of the component formulas'],
     'stubs': ['module global np -> symbolic numpy proxy', 'complex exp/sin/cos/sinh/cosh/expm1/log/log1p/sqrt -> pairs of '
